@@ -39,6 +39,8 @@ ReachF(F, S, v, Rs) ==
     IN IF N = {} THEN Rs ELSE ReachF(F, S, v, Rs \cup N)
 FanConnected(F, v) ==
     LET S == FacesAt(F, v) IN S = {} \/ ReachF(F, S, v, {CHOOSE i \in S : TRUE}) = S
+\* the components of the fan at v, as sets of face indices
+FanComponents(F, v) == {ReachF(F, FacesAt(F, v), v, {i}) : i \in FacesAt(F, v)}
 SingularVertsDef(F) == {v \in VertSet(F) : ~FanConnected(F, v)}
 
 ClosedManifoldOriented(F) == ClosedOriented(F) /\ SingularVertsDef(F) = {}
